@@ -8,6 +8,10 @@
 #include <algorithm>
 #include <iterator>
 
+#ifdef BLUETOE_VERIF_HOOKS
+#include <bluetoe/verif_hooks.hpp>
+#endif
+
 namespace bluetoe {
 
     namespace details {
@@ -262,7 +266,11 @@ namespace bluetoe {
             };
 
             std::size_t     next_;
+#ifdef BLUETOE_VERIF_HOOKS
+            verif_hooks::yielding< std::uint8_t > queue_[ ( Size * bits_per_characteristc + 7 ) / 8 ];
+#else
             std::uint8_t    queue_[ ( Size * bits_per_characteristc + 7 ) / 8 ];
+#endif
         };
 
         /**
@@ -322,7 +330,11 @@ namespace bluetoe {
                 state_ = notification_queue_entry_type::empty;
             }
         private:
+#ifdef BLUETOE_VERIF_HOOKS
+            verif_hooks::yielding< notification_queue_entry_type > state_;
+#else
             notification_queue_entry_type state_;
+#endif
         };
 
         template < int C >
